@@ -307,6 +307,9 @@ class SpecEnv:
         if f == "fresh":
             x = as_v(self.ev(a[0]))
             return z3.And(z3.Not(self.old.sel("$alloc", x)), self.cur.sel("$alloc", x))
+        if f == "field":
+            # field(o, 'name'): attribute whose name is not a valid identifier in the spec language (e.g. 'async')
+            return self.heap.sel(self._str(a[1]), as_v(self.ev(a[0])))
         if f == "hasattr":
             return self.heap.sel("$has:" + self._str(a[1]), as_v(self.ev(a[0])))
         if f == "no_callout":
